@@ -1,0 +1,19 @@
+//go:build verif
+
+package extractor
+
+// Temporary opaque contracts (replaced by the verified C19 contracts).
+//@ func JSON
+//@   opaque
+//@   modifies models.URL::*
+//@   ensures forall(a, 0, len(result0), forall(b, 0, len(result1), result0[a] == nil || result0[a] != result1[b])) && forall(b, 0, len(result1), result1[b] == nil || fresh(result1[b]))
+//@ func XML
+//@   opaque
+//@   modifies models.URL::*
+//@   ensures forall(a, 0, len(result0), forall(b, 0, len(result1), result0[a] == nil || result0[a] != result1[b])) && forall(b, 0, len(result1), result1[b] == nil || fresh(result1[b]))
+//@ func M3U8
+//@   opaque
+//@   modifies models.URL::*
+//@ func S3
+//@   opaque
+//@   modifies models.URL::*
